@@ -237,6 +237,15 @@ class Ctx:
         self.vars[name] = ("bool", t, None)
         return SymBool(t)
 
+    def real(self, name, lo=None, hi=None):
+        t = z3.Real(name)
+        self.vars[name] = ("real", t, None)
+        if lo is not None:
+            self.assume(t >= lo)
+        if hi is not None:
+            self.assume(t <= hi)
+        return SymReal(t)
+
     def choice(self, name, options):
         """solver-driven discrete choice: returns one element of options per path (all are explored)"""
         options = list(options)
@@ -274,6 +283,8 @@ class Ctx:
                 out[name] = v.as_long()
             elif kind == "bool":
                 out[name] = bool(z3.is_true(v))
+            elif kind == "real":
+                out[name] = float(v.numerator_as_long()) / float(v.denominator_as_long()) if z3.is_rational_value(v) else 0.0
             elif kind == "str":
                 out[name] = zstr_value(v)
             elif kind == "blob":
@@ -353,6 +364,9 @@ class ConcreteCtx:
 
     def bool(self, name):
         return bool(self.values[name])
+
+    def real(self, name, lo=None, hi=None):
+        return float(self.values[name])
 
     flag = bool
 
